@@ -1676,3 +1676,493 @@ func ruleDecompressorGetsWholeInput(c *eng.Ctx) {
 		c.Undec(R, "internal/filters#decompressors", token.NoPos, "no zlib/flate/lzw reader construction found")
 	}
 }
+
+// ---------------------------------------------------------------------------------------------------------------
+// R6.13 the text of a token decides nothing until its type is known.
+
+// tokenTypeKnown: a comparison of base.Type with a constant holds (==) at blk, in fn or at every call site of the
+// unexported fn that was handed the token.
+func tokenTypeKnown(p *eng.Prog, fn *ssa.Function, blk *ssa.BasicBlock, base ssa.Value, structName string, depth int) bool {
+	if eng.GuardedBy(fn, blk, func(f eng.Fact) bool {
+		op, x, y, ok := f.Cmp()
+		if !ok || op != token.EQL {
+			return false
+		}
+		if _, isC := eng.ConstInt(y); !isC {
+			x, y = y, x
+			if _, isC := eng.ConstInt(y); !isC {
+				return false
+			}
+		}
+		fr, ok := eng.LoadOfField(x)
+		return ok && fr.Field == "Type" && fr.Struct == structName && eng.SameValue(fr.Base, base)
+	}) {
+		return true
+	}
+	// the token is held in a field (p.currentToken): the same field of the same holder
+	par, isPar := base.(*ssa.Parameter)
+	if !isPar || depth > 2 {
+		return false
+	}
+	if obj, ok := fn.Object().(*types.Func); !ok || obj.Exported() {
+		return false
+	}
+	pi := -1
+	for i, q := range fn.Params {
+		if q == par {
+			pi = i
+		}
+	}
+	sites, all := 0, true
+	for _, g := range p.ModuleFuncs() {
+		if g.Pkg != fn.Pkg {
+			continue
+		}
+		for _, ci := range eng.Calls(g, true, func(_ string, ci ssa.CallInstruction) bool { return eng.StaticCallee(ci) == fn }) {
+			sites++
+			args := eng.ArgsWithRecv(ci)
+			if pi < 0 || pi >= len(args) || !tokenTypeKnown(p, ci.Parent(), ci.Block(), args[pi], structName, depth+1) {
+				all = false
+			}
+		}
+	}
+	return sites > 0 && all
+}
+
+// R6.13 [C06]
+func ruleTokenTextNeedsType(c *eng.Ctx) {
+	const R = "R6.13-TOKEN-TEXT-NEEDS-TYPE"
+	c.Rule(R, "in package core the bytes of a token (Token.Value) are compared with a word only where the token's Type has been found equal to a constant (in the same condition, before it, or at every call site of the unexported helper that compares): Value holds the text of strings and names without their delimiters, so (stream) and /stream have the same Value as the keyword stream", 4, 1)
+	n := 0
+	for _, fn := range c.P.ModuleFuncs() {
+		if fn.Pkg == nil || fn.Blocks == nil {
+			continue
+		}
+		sp := eng.ShortPath(fn.Pkg.Pkg.Path())
+		if sp != "core" && !strings.Contains(sp, eng.PositivePkg) {
+			continue
+		}
+		eng.Instrs(fn, true, func(in ssa.Instruction) {
+			b, ok := in.(*ssa.BinOp)
+			if !ok || (b.Op != token.EQL && b.Op != token.NEQ) {
+				return
+			}
+			var fr eng.FieldRef
+			found := false
+			for _, side := range []ssa.Value{b.X, b.Y} {
+				cv, ok := side.(*ssa.Convert)
+				if !ok {
+					continue
+				}
+				if bt, ok := cv.Type().Underlying().(*types.Basic); !ok || bt.Info()&types.IsString == 0 {
+					continue
+				}
+				if f, ok := eng.LoadOfField(cv.X); ok && f.Field == "Value" && (f.Struct == "core.Token" || strings.HasSuffix(f.Struct, eng.PositivePkg+".Token")) {
+					fr, found = f, true
+				}
+			}
+			if !found {
+				return
+			}
+			n++
+			known := tokenTypeKnown(c.P, in.Parent(), in.Block(), fr.Base, fr.Struct, 0)
+			c.Check(known, R, fmt.Sprintf("%s#Value@%s", eng.FuncName(in.Parent()), c.P.Pos(b.Pos())), b.Pos(), "compared where the token type is known", "the bytes of a token are compared with a word without knowing the token's type: a literal string or a name with the same text (\"(stream)\", \"/endobj\") is taken for the keyword")
+		})
+	}
+	if n == 0 {
+		c.Undec(R, "core#value-comparisons", token.NoPos, "no comparison of Token.Value with a word found")
+	}
+}
+
+// ---------------------------------------------------------------------------------------------------------------
+// R6.14 the keys of an inline dictionary are names read by the name reader.
+
+// decodesNameEscapes: the function (or a callee in its package, depth 2) compares a byte with '#'.
+func decodesNameEscapes(fn *ssa.Function) bool {
+	found := false
+	for _, h := range eng.Cluster(fn, 2) {
+		if h.Pkg != fn.Pkg {
+			continue
+		}
+		eng.Instrs(h, true, func(in ssa.Instruction) {
+			if b, ok := in.(*ssa.BinOp); ok && (b.Op == token.EQL || b.Op == token.NEQ) {
+				for _, v := range []ssa.Value{b.X, b.Y} {
+					if k, isC := eng.ConstInt(v); isC && k == '#' {
+						found = true
+					}
+				}
+			}
+		})
+	}
+	return found
+}
+
+// sliceThroughFields is SliceInter made field-based for values parked in local records: when the slice reaches a load
+// of field F of struct type T, it continues at every value stored into a T.F anywhere in the cluster (entries collected
+// in a slice of small structs and read back in a second loop).
+func sliceThroughFields(v ssa.Value, cluster []*ssa.Function) map[ssa.Value]bool {
+	out := map[ssa.Value]bool{}
+	work := []ssa.Value{v}
+	doneField := map[string]bool{}
+	for len(work) > 0 {
+		cur := work[len(work)-1]
+		work = work[:len(work)-1]
+		for w := range eng.SliceInter(cur, nil, cluster) {
+			if out[w] {
+				continue
+			}
+			out[w] = true
+			var st *types.Struct
+			fi := -1
+			switch x := w.(type) {
+			case *ssa.FieldAddr:
+				if pt, ok := x.X.Type().Underlying().(*types.Pointer); ok {
+					st, _ = pt.Elem().Underlying().(*types.Struct)
+					fi = x.Field
+				}
+			case *ssa.Field:
+				st, _ = x.X.Type().Underlying().(*types.Struct)
+				fi = x.Field
+			}
+			if st == nil || fi < 0 {
+				continue
+			}
+			key := fmt.Sprintf("%p/%d", st, fi)
+			if doneField[key] {
+				continue
+			}
+			doneField[key] = true
+			for _, h := range cluster {
+				eng.Instrs(h, true, func(in ssa.Instruction) {
+					sto, ok := in.(*ssa.Store)
+					if !ok {
+						return
+					}
+					fa, ok := sto.Addr.(*ssa.FieldAddr)
+					if !ok || fa.Field != fi {
+						return
+					}
+					if pt, ok := fa.X.Type().Underlying().(*types.Pointer); ok {
+						if st2, ok := pt.Elem().Underlying().(*types.Struct); ok && st2 == st {
+							work = append(work, sto.Val)
+						}
+					}
+				})
+			}
+		}
+	}
+	return out
+}
+
+// R6.14 [C06]
+func ruleDictKeysAreReadNames(c *eng.Ctx) {
+	const R = "R6.14-DICT-KEYS-ARE-READ-NAMES"
+	c.Rule(R, "every key that contentstream.(*Parser).parseDict puts into the dictionary it builds comes out of the parser's name reader (the function that decodes #xx escapes), as operands, values and array elements do: a key cut straight out of the data keeps its raw spelling, so /A#20B and /A B, which are the same name, become different keys", 1, 0)
+	fn := c.P.Func("contentstream.(*Parser).parseDict")
+	if fn == nil {
+		c.Undec(R, "contentstream.(*Parser).parseDict", token.NoPos, "anchor not found")
+		return
+	}
+	n := 0
+	cluster := eng.Cluster(fn, 1)
+	for _, h := range cluster {
+		if h.Pkg != fn.Pkg {
+			continue
+		}
+		eng.Instrs(h, true, func(in ssa.Instruction) {
+			mu, ok := in.(*ssa.MapUpdate)
+			if !ok || eng.TypeName(mu.Map.Type()) != "core.Dict" {
+				return
+			}
+			n++
+			okKey := false
+			for w := range sliceThroughFields(mu.Key, cluster) {
+				if call, ok := w.(*ssa.Call); ok {
+					if cal := eng.StaticCallee(call); cal != nil && eng.InModule(cal) && decodesNameEscapes(cal) {
+						okKey = true
+					}
+				}
+				if ex, ok := w.(*ssa.Extract); ok {
+					if call, ok := ex.Tuple.(*ssa.Call); ok {
+						if cal := eng.StaticCallee(call); cal != nil && eng.InModule(cal) && decodesNameEscapes(cal) {
+							okKey = true
+						}
+					}
+				}
+			}
+			c.Check(okKey, R, fmt.Sprintf("%s#key@%s", eng.FuncName(in.Parent()), c.P.Pos(mu.Pos())), mu.Pos(), "the key is a name read by the name reader", "the dictionary key does not come from the name reader: #xx escapes in it stay undecoded, so the same name gives different keys depending on how it is spelled")
+		})
+	}
+	if n == 0 {
+		c.Undec(R, "contentstream.(*Parser).parseDict#keys", fn.Pos(), "no store into a core.Dict found")
+	}
+}
+
+// ---------------------------------------------------------------------------------------------------------------
+// R7.10 each simple font type falls back to its own default encoding.
+
+// R7.10 [C07]
+func ruleDefaultEncodingPerFontType(c *eng.Ctx) {
+	const R = "R7.10-DEFAULT-ENCODING-PER-FONT-TYPE"
+	c.Rule(R, "the constant encoding names that can become the Encoding of a Type1 font (no /Encoding, or an /Encoding dictionary without /BaseEncoding) include StandardEncoding and not WinAnsiEncoding, and for a TrueType font WinAnsiEncoding and not StandardEncoding: the two tables differ at 0x27, 0x60 and from 0x80 up, so a Type1 font with only /Differences decoded against the TrueType default shows wrong quotes and accents", 2, 0)
+	for _, spec := range []struct{ fn, want, not string }{
+		{"font.(*Type1Font).parseEncoding", "StandardEncoding", "WinAnsiEncoding"},
+		{"font.(*TrueTypeFont).parseEncoding", "WinAnsiEncoding", "StandardEncoding"},
+	} {
+		fn := c.P.Func(spec.fn)
+		if fn == nil {
+			c.Undec(R, spec.fn, token.NoPos, "anchor not found")
+			continue
+		}
+		cluster := eng.Cluster(fn, 2)
+		consts := map[string]bool{}
+		stores := 0
+		for _, h := range cluster {
+			if h.Pkg != fn.Pkg {
+				continue
+			}
+			eng.Instrs(h, true, func(in ssa.Instruction) {
+				sto, ok := in.(*ssa.Store)
+				if !ok {
+					return
+				}
+				fr, ok := eng.AsField(sto.Addr)
+				if !ok || fr.Field != "Encoding" {
+					return
+				}
+				// only stores that can belong to this font type: the receiver of fn or a struct of its type
+				if !strings.Contains(spec.fn, strings.TrimPrefix(fr.Struct, "font.")) {
+					return
+				}
+				stores++
+				for w := range eng.SliceInter(sto.Val, nil, cluster) {
+					if cs, ok := eng.ConstString(w); ok {
+						consts[cs] = true
+					}
+				}
+			})
+		}
+		if stores == 0 {
+			c.Undec(R, spec.fn+"#Encoding", fn.Pos(), "no store to the Encoding field found in the function or its helpers")
+			continue
+		}
+		var bad []string
+		if !consts[spec.want] {
+			bad = append(bad, "the default "+spec.want+" is never assigned")
+		}
+		if consts[spec.not] {
+			bad = append(bad, "the other font type's default "+spec.not+" can be assigned")
+		}
+		c.Check(len(bad) == 0, R, spec.fn+"#defaults", fn.Pos(), "falls back to "+spec.want+" only", strings.Join(bad, "; ")+": a font of this type without an explicit base encoding is decoded with the wrong table")
+	}
+}
+
+// ---------------------------------------------------------------------------------------------------------------
+// RX.MI a memo kept on a receiver is dropped whenever a field it was computed from is reassigned.
+
+// receiverFieldsRead: the fields of fn's receiver (parameter 0) that fn or the receiver methods it calls (depth 3) load.
+func receiverFieldsRead(fn *ssa.Function, depth int, seen map[*ssa.Function]bool, out map[string]bool) {
+	if fn == nil || fn.Blocks == nil || seen[fn] || depth > 3 || len(fn.Params) == 0 {
+		return
+	}
+	seen[fn] = true
+	recv := fn.Params[0]
+	eng.Instrs(fn, true, func(in ssa.Instruction) {
+		switch x := in.(type) {
+		case *ssa.UnOp:
+			if fa, ok := x.X.(*ssa.FieldAddr); ok && x.Op == token.MUL && fa.X == ssa.Value(recv) {
+				if pt, ok := fa.X.Type().Underlying().(*types.Pointer); ok {
+					if st, ok := pt.Elem().Underlying().(*types.Struct); ok {
+						out[st.Field(fa.Field).Name()] = true
+					}
+				}
+			}
+		case ssa.CallInstruction:
+			cal := eng.StaticCallee(x)
+			args := eng.ArgsWithRecv(x)
+			if cal != nil && eng.InModule(cal) && cal.Signature.Recv() != nil && len(args) > 0 && args[0] == ssa.Value(recv) {
+				receiverFieldsRead(cal, depth+1, seen, out)
+			}
+		}
+	})
+}
+
+// lazyInitOf: the block runs only while some field of the struct is still nil (the first, filling pass of a lazily
+// initialised object), in fn itself or at every call site of the unexported fn.
+func lazyInitOf(p *eng.Prog, fn *ssa.Function, blk *ssa.BasicBlock, structName string, depth int) bool {
+	if eng.GuardedBy(fn, blk, func(f eng.Fact) bool {
+		op, x, y, ok := f.Cmp()
+		if !ok || op != token.EQL || !eng.IsNilConst(y) {
+			return false
+		}
+		fr, ok := eng.LoadOfField(x)
+		return ok && fr.Struct == structName
+	}) {
+		return true
+	}
+	if depth > 2 {
+		return false
+	}
+	if fn.Parent() != nil {
+		return false
+	}
+	if obj, ok := fn.Object().(*types.Func); !ok || obj.Exported() {
+		return false
+	}
+	sites, all := 0, true
+	for _, g := range p.ModuleFuncs() {
+		if g.Pkg != fn.Pkg {
+			continue
+		}
+		for _, ci := range eng.Calls(g, true, func(_ string, ci ssa.CallInstruction) bool { return eng.StaticCallee(ci) == fn }) {
+			sites++
+			if !lazyInitOf(p, ci.Parent(), ci.Block(), structName, depth+1) {
+				all = false
+			}
+		}
+	}
+	return sites > 0 && all
+}
+
+func memoInvalidationRule(id string, pkgs ...string) func(*eng.Ctx) {
+	return func(c *eng.Ctx) {
+		R := id + "-MEMO-DROPPED-WITH-ITS-INPUTS"
+		c.Rule(R, "a map kept on a receiver that a method fills with values computed through the receiver (a memo: filled only after a lookup of the same key missed) is set to nil or a fresh map by every function, other than constructors, that assigns one of the receiver fields those values were computed from: otherwise an entry computed under the old field value answers a lookup made under the new one (a form cached by name under one resource dictionary and found again under another)", 0, 1)
+		set := map[string]bool{}
+		for _, k := range pkgs {
+			set[k] = true
+		}
+		n := 0
+		for _, fn := range c.P.ModuleFuncs() {
+			if fn.Pkg == nil || fn.Blocks == nil || fn.Signature.Recv() == nil || fn.Parent() != nil {
+				continue
+			}
+			sp := eng.ShortPath(fn.Pkg.Pkg.Path())
+			if !set[sp] && !strings.Contains(sp, eng.PositivePkg) {
+				continue
+			}
+			recv := fn.Params[0]
+			eng.Instrs(fn, false, func(in ssa.Instruction) {
+				mu, ok := in.(*ssa.MapUpdate)
+				if !ok {
+					return
+				}
+				mfr, ok := eng.LoadOfField(mu.Map)
+				if !ok || mfr.Base != ssa.Value(recv) {
+					return
+				}
+				// a memo: the update happens after a lookup of the same map missed
+				isMemo := eng.GuardedBy(fn, in.Block(), func(f eng.Fact) bool {
+					ex, ok := f.Cond.(*ssa.Extract)
+					if !ok || f.Pos || ex.Index != 1 {
+						return false
+					}
+					lk, ok := ex.Tuple.(*ssa.Lookup)
+					if !ok {
+						return false
+					}
+					fr, ok := eng.LoadOfField(lk.X)
+					return ok && fr.Field == mfr.Field && fr.Base == ssa.Value(recv)
+				})
+				if !isMemo {
+					return
+				}
+				n++
+				// receiver fields the value was computed from
+				inputs := map[string]bool{}
+				seenV := map[ssa.Value]bool{}
+				var walk func(v ssa.Value, depth int)
+				walk = func(v ssa.Value, depth int) {
+					if v == nil || seenV[v] || depth > 40 {
+						return
+					}
+					seenV[v] = true
+					if call, ok := v.(*ssa.Call); ok {
+						cal := eng.StaticCallee(call)
+						args := eng.ArgsWithRecv(call)
+						if cal != nil && eng.InModule(cal) && cal.Signature.Recv() != nil && len(args) > 0 && args[0] == ssa.Value(recv) {
+							receiverFieldsRead(cal, 0, map[*ssa.Function]bool{}, inputs)
+						}
+					}
+					if u, ok := v.(*ssa.UnOp); ok && u.Op == token.MUL {
+						if fa, ok := u.X.(*ssa.FieldAddr); ok && fa.X == ssa.Value(recv) {
+							if fr, ok := eng.AsField(fa); ok {
+								inputs[fr.Field] = true
+							}
+						}
+					}
+					if ins, ok := v.(ssa.Instruction); ok {
+						for _, op := range ins.Operands(nil) {
+							if op != nil && *op != nil {
+								walk(*op, depth+1)
+							}
+						}
+					}
+				}
+				walk(mu.Value, 0)
+				delete(inputs, mfr.Field)
+				// every non-constructor function that assigns an input field also resets the memo
+				var bad []string
+				for _, g := range c.P.ModuleFuncs() {
+					if g.Pkg != fn.Pkg || g.Blocks == nil {
+						continue
+					}
+					if strings.HasPrefix(g.Name(), "New") || strings.HasPrefix(g.Name(), "new") || g.Name() == "init" {
+						continue
+					}
+					var assigns, resets []*ssa.Store
+					eng.Instrs(g, true, func(in2 ssa.Instruction) {
+						sto, ok := in2.(*ssa.Store)
+						if !ok {
+							return
+						}
+						fr, ok := eng.AsField(sto.Addr)
+						if !ok || fr.Struct != mfr.Struct {
+							return
+						}
+						if inputs[fr.Field] && !lazyInitOf(c.P, sto.Parent(), sto.Block(), mfr.Struct, 0) {
+							assigns = append(assigns, sto)
+						}
+						if fr.Field == mfr.Field {
+							switch v := sto.Val.(type) {
+							case *ssa.MakeMap:
+								resets = append(resets, sto)
+							case *ssa.Const:
+								if v.IsNil() {
+									resets = append(resets, sto)
+								}
+							}
+						}
+					})
+					var assigned []string
+					for _, a := range assigns {
+						okA := false
+						for _, r := range resets {
+							if r.Parent() == a.Parent() && (r.Block() == a.Block() || r.Block().Dominates(a.Block())) {
+								okA = true
+							}
+						}
+						if !okA {
+							fr, _ := eng.AsField(a.Addr)
+							assigned = append(assigned, fr.Field+" at "+c.P.Pos(a.Pos()))
+						}
+					}
+					if len(assigned) > 0 {
+						sort.Strings(assigned)
+						bad = append(bad, eng.FuncName(g)+" assigns "+strings.Join(assigned, ", "))
+					}
+				}
+				sort.Strings(bad)
+				var ins []string
+				for k := range inputs {
+					ins = append(ins, k)
+				}
+				sort.Strings(ins)
+				c.Check(len(bad) == 0, R, fmt.Sprintf("%s#%s", eng.FuncName(fn), mfr.Field), mu.Pos(), "every assignment of the memo's inputs ("+strings.Join(ins, ", ")+") drops the memo", "the memo "+mfr.Field+" is computed from receiver fields that are reassigned without dropping it ("+strings.Join(bad, "; ")+"): an entry made under the old value is returned under the new one")
+			})
+		}
+		if n == 0 {
+			c.Ok(R, "scope#memos", token.NoPos, "no lookup-then-fill memo on a receiver in "+strings.Join(pkgs, ", "))
+		}
+	}
+}
